@@ -4,5 +4,6 @@ CONSTANTS
   MaxSet = 2
   MaxReq = 2
   Emitting = FALSE
-INVARIANTS ExcludedNeverServed BlockedNameNeverServed SilentOnDatagram OthersServed PresentationIrrelevant AllowModeIgnoresDisallowed OnlyIdsAllowedExcludesAnonymous BlockModeOneMatchSuffices EmptyListsExcludeNobody
-PROPERTIES DeniedMovesNothing ServedIsObserved SetAccessMovesNothing
+INVARIANTS LastPostedRules ExcludedNeverServed BlockedNameNeverServed SilentOnDatagram OthersServed PresentationIrrelevant TypeIrrelevantForPlainPatterns AllowModeIgnoresDisallowed OnlyIdsAllowedExcludesAnonymous BlockModeOneMatchSuffices EmptyListsExcludeNobody OnlyRespelledIdsAreOpen
+PROPERTIES DeniedMovesNothing ServedIsObserved SetListsMovesNothing
+VIEW NoHistory
